@@ -11,6 +11,9 @@ pub assume_specification<T, U, F>[ Option::<T>::map_or ](o: Option<T>, d: U, f: 
   requires o is Some ==> f.requires((o->0,)),
   ensures match o { Some(t) => f.ensures((t,), r), None => r == d };
 
+pub assume_specification<T: std::default::Default>[ std::mem::take ](x: &mut T) -> (r: T)
+  ensures r == *old(x), call_ensures(T::default, (), *final(x));
+
 // ---- notifications ----------------------------------------------------------------------------
 pub enum Ev<Item, Err> { Next(Item), Error(Err), Complete }
 
@@ -144,3 +147,13 @@ pub struct TypeHint<T>(pub core::marker::PhantomData<T>);
 impl<T> TypeHint<T> {
   pub fn new() -> Self { TypeHint(core::marker::PhantomData) }
 }
+
+// ---- assumption: Clone of an item/value type is faithful ---------------------------------------
+pub mod clone_axiom {
+  use vstd::prelude::*;
+  #[verifier::external_body]
+  pub broadcast proof fn axiom_clone_faithful<T: Clone>(a: T, b: T)
+    ensures #[trigger] call_ensures(T::clone, (&a,), b) ==> a == b
+  {}
+}
+broadcast use clone_axiom::axiom_clone_faithful;
